@@ -127,3 +127,108 @@ func PC03Big(args []string) string {
 	}
 	return "ok"
 }
+
+// p_c02_shrink <seed>: an FFSv3 volume of 17 MiB+ holding a driver whose sections add up to
+// 16 MiB or more (large-file attribute, size field 0xFFFFFF, 32-byte header), and one edit:
+//   - replace_pe32 with a small image when the PE32 section is the big one: the file shrinks below
+//     16 MiB and must be written in the small form (attribute cleared, 24-bit size, 24-byte header);
+//   - replace_pe32 with a small image when a RAW section is the big one: the file stays large;
+//   - remove / insert of a neighbour: the big file is re-placed unchanged.
+// The saved image keeps its size and is valid for the independent reader, which checks
+// large attribute <=> size field 0xFFFFFF <=> 32-byte header by itself; the big file is still
+// listed with the expected sections.
+func PC02Shrink(args []string) string {
+	r := NewRng(UnN(args[0]))
+	extra := r.Pick(0, 1, 7, 4097)
+	bigBody := make([]byte, 0x1000000+extra)
+	for i := 0; i < len(bigBody); i += 4091 {
+		bigBody[i] = byte(r.U64())
+	}
+	copy(bigBody, "MZ")
+	small := append([]byte("MZ"), r.Bytes(r.Pick(2, 62, 300))...)
+	peBig := r.Chance(2, 3)
+	drv := &uefigen.File{GUID: poolGUID(2), Type: 7, State: 0xF8, BigSecs: true}
+	if r.Bool() {
+		drv.Attr |= 0x40
+	}
+	if peBig {
+		drv.Secs = []*uefigen.Sec{{Type: 0x10, Body: bigBody}, {Type: 0x15, Body: ucs2("BigDriver")}}
+	} else {
+		drv.Secs = []*uefigen.Sec{{Type: 0x19, Body: bigBody}, {Type: 0x10, Body: append([]byte("MZ"), r.Bytes(20)...)}, {Type: 0x15, Body: ucs2("BigDriver")}}
+	}
+	front := &uefigen.File{GUID: poolGUID(1), Type: 0xC0, State: 0xF8, Body: r.Bytes(r.Pick(5, 40, 300))}
+	back := &uefigen.File{GUID: poolGUID(3), Type: 0xC6, State: 0xF8, Body: r.Bytes(17)}
+	v := &uefigen.Vol{FSGUID: uefigen.FFS3, Attrs: 0x800 | 0x4FEFF, Revision: 2, BlockSize: 4096,
+		Files: []*uefigen.File{front, drv, back}, FreeSpace: 4096 * r.Pick(1, 3)}
+	img, _ := uefigen.EmitVol(v)
+	if why := ValidImage(img); why != "" {
+		return "harness-error generated-image-invalid " + why
+	}
+	var op EOp
+	shrinks := false
+	wantPE := bigBody
+	if !peBig {
+		wantPE = drv.Secs[1].Body
+	}
+	switch r.Intn(4) {
+	case 0, 1:
+		op = EOp{Kind: "pe", Target: GuidText(drv.GUID), Data: small}
+		shrinks = peBig
+		wantPE = small
+	case 2:
+		op = EOp{Kind: "rm", Pad: r.Bool(), Target: GuidText(front.GUID)}
+	default:
+		nf := &uefigen.File{GUID: poolGUID(4), Type: 0xC0, State: 0xF8, Body: r.Bytes(r.Pick(8, 100))}
+		op = EOp{Kind: "ins", It: "before", Target: GuidText(drv.GUID), Data: EmitFile(nf)}
+	}
+	res := RunEdit(img, []EOp{op})
+	if strings.HasPrefix(res.Stage, "harness-error") {
+		return res.Stage
+	}
+	if res.Stage != "ok" {
+		return "FAIL edit-next-to-or-inside-a-large-file-failed " + res.Stage
+	}
+	if len(res.Out) != len(img) {
+		return fmt.Sprintf("FAIL size-changed %x -> %x", len(img), len(res.Out))
+	}
+	if why := ValidImage(res.Out); why != "" {
+		return "FAIL invalid-output " + why
+	}
+	// the driver is there, in the form its size asks for, with the expected PE32 section
+	found := false
+	vi := TopVolumes(res.Out)
+	if len(vi) != 1 {
+		return "FAIL volume-lost"
+	}
+	for key, off := range FileOffsets(res.Out) {
+		if !strings.HasPrefix(key, fmt.Sprintf("0/%x/", drv.GUID[:])) {
+			continue
+		}
+		found = true
+		fb := res.Out[off:]
+		large := fb[19]&1 != 0
+		if large == shrinks {
+			return fmt.Sprintf("FAIL large-attribute=%v after the edit (file shrinks below 16 MiB: %v)", large, shrinks)
+		}
+		hl := 24
+		if large {
+			hl = 32
+		}
+		shl, size, ok := secAt(fb, hl)
+		if !ok {
+			return "FAIL first-section-unreadable"
+		}
+		first := fb[hl+shl : hl+size]
+		if peBig {
+			if fb[hl+3] != 0x10 || string(first) != string(wantPE) {
+				return "FAIL pe32-section-content"
+			}
+		} else if fb[hl+3] != 0x19 || len(first) != len(bigBody) {
+			return "FAIL raw-section-lost"
+		}
+	}
+	if !found {
+		return "FAIL big-file-lost"
+	}
+	return "ok"
+}
